@@ -142,6 +142,13 @@ Judge(ev) ==
                 ELSE IF ev.obs.st # "ok" THEN "bad:rejected"
                 ELSE IF ev.obs.c # tcur \/ <<ev.obs.c, ev.obs.m>> \notin decl \/ ~ev.obs.sametype THEN "bad:unit-or-type"
                 ELSE J(QEqv(QDiv(Q(ev.obs.a), MScale(ev.obs.m)), val))
+      [] ev.op = "price_late" ->
+            \* a conversion refused because the target unit is not declared succeeds once it is (C10: "raises when the
+            \* target compound unit has not been declared" - and only then)
+            J(ev.obs.first_refused /\ ev.obs.st = "ok" /\ ev.obs.unit_ok /\ ev.obs.value_ok)
+      [] ev.op = "price_mass" ->
+            \* quantity * price: money in the price's own currency, whatever was multiplied before (C08)
+            J(ev.obs.st = "ok" /\ ev.obs.t = "Money" /\ ev.obs.cur = ev.want /\ ev.obs.exact)
       [] ev.op = "isocount" -> J(ev.n = Len(Iso) /\ Len(Iso) = 167)
 
 Init == i = 1
